@@ -1395,6 +1395,99 @@ def run(chk, cases=None, rejections=None):
             if got is not None:
                 chk.report({"case": {"kind": "rejection", "name": name}, "impl": got,
                             "what": f"malformed call ({name}) is not rejected with RuntimeError: {got}"})
+    source_tie(chk, cases, impls, with_fixed=(not replaying) if rejections is None else rejections)
+
+
+# ----------------------------------------------------------------------------------------------------------
+# source tie (tokens): the translated Python text of chunk_token_sequences_by_slices, interpreted inside Coq
+# (PV.Gen.C10Src.chunk_tokens_body run by PV.MiniPy.Interp, torch calls = PV.MiniTorch.OpsC10 through SrcRun.ext10),
+# on the token cases of this run; see coq/theories/C10/SrcRun.v, Tie.v and the c10_source_* theorems
+# ----------------------------------------------------------------------------------------------------------
+IMPORTS_SRC = IMPORTS + "From PV Require C10.SrcRun.\n"
+SRC_TIE_THEOREMS = ["c10_source_tokens_is_model", "c10_source_tokens_refines_model", "c10_source_tokens_check_is_check",
+                    "c10_source_tokens_raises", "c10_source_tokens_2d_empty", "c10_source_tokens_kept_in_order"]
+# (refs shape, slices shape, ref_lens shape or None): calls the source must reject with RuntimeError / accept
+SRC_TIE_SHAPES = [((1, 3, 2), (1, 2), None), ((1, 3, 3), (2, 2), None), ((1, 3, 3), (1, 2), (2,)), ((3,), (1, 2), None),
+                  ((1, 3, 3, 1), (1, 2), None), ((2, 2, 3), (2, 3), None), ((1, 3, 3), (1, 2), (1,)), ((2, 0, 3), (2, 2), None)]
+SRC_TIE_2D = [(0, 2), (1, 0), (2, 3)]
+
+
+def src_tokens_term(case, impl):
+    """bool: the interpreted source on this case returns what the implementation returned (defined cells chunked[n, :lens[n]]
+    and chunked_lens) - same literals and comparison as Model.check_tokens"""
+    out = "(" + cl([ctoks(r) for r in impl[1]]) + ", " + zl(impl[2]) + ")"
+    return f"SrcRun.src_chunk_tokens_check {cn(case['R'])} {_tokens_args(case)} {out}"
+
+
+def _cnl(shape):
+    return cl([cn(x) for x in shape])
+
+
+def source_tie(chk, cases, impls, with_fixed=True):
+    """validates translator + MiniPy.Interp + ext10 + MiniTorch.OpsC10 against CPython + torch on the run's token cases
+    (and on a few fixed malformed / 2-D calls); independent of whether the tie lemmas still compile"""
+    import time
+    from vlib import CoqError
+    idx, terms = [], []
+    for i, (c, im) in enumerate(zip(cases, impls)):
+        if c.get("kind") == "tokens" and im[0] == "ok":
+            idx.append(i)
+            terms.append(src_tokens_term(c, im))
+    fixed = []          # (description, Coq term, what the implementation did)
+    if with_fixed:
+        F = _api()
+        for rs, ss, ls in SRC_TIE_SHAPES:
+            try:
+                with warnings.catch_warnings():
+                    warnings.simplefilter("ignore")
+                    F.chunk_token_sequences_by_slices(torch.zeros(rs, dtype=torch.long), torch.zeros(ss, dtype=torch.long),
+                                                      None if ls is None else torch.zeros(ls, dtype=torch.long))
+                got = False
+            except RuntimeError:
+                got = True
+            except Exception:
+                continue    # another exception kind: the correspondence's rejection checks report it
+            ls_t = "None" if ls is None else f"(Some {_cnl(ls)})"
+            fixed.append((f"shapes refs={rs} slices={ss} ref_lens={ls}: RuntimeError", f"SrcRun.src_tokens_rejects {_cnl(rs)} {_cnl(ss)} {ls_t}", got))
+        for N, R in SRC_TIE_2D:
+            try:
+                ch, ln = F.chunk_token_sequences_by_slices(torch.zeros(N, R, dtype=torch.long), torch.zeros(N, 2, dtype=torch.long))
+                got = tuple(ch.shape) == (N, 0) and tuple(ln.shape) == (N,) and int(ln.abs().sum()) == 0
+            except Exception:
+                got = False
+            fixed.append((f"2-D refs N={N} R={R}: empty chunk, zero lengths", f"SrcRun.src_tokens_2d_empty {cn(N)} {cn(R)}", got))
+    if not terms and not fixed:
+        chk.extra["source_tie_run"] = {"cases": 0, "disagreements": 0}
+        return
+    t0 = time.time()
+    try:
+        res = coq_eval_bools(chk.workdir, IMPORTS_SRC, terms + [t for _, t, _ in fixed], shard=120, tag="src")
+    except CoqError as e:
+        chk.extra["source_tie_run"] = "not evaluated: " + str(e)[-400:]
+        return
+    bad = [idx[j] for j in range(len(idx)) if not res[j]]
+    bad_fixed = [fixed[j][0] for j in range(len(fixed)) if res[len(idx) + j] != fixed[j][2]]
+    chk.extra["source_tie_run"] = {
+        "cases": len(idx), "disagreements": len(bad), "fixed_calls": len(fixed), "fixed_disagreements": bad_fixed,
+        "wall_s": round(time.time() - t0, 1),
+        "partial": sum(1 for i in idx if cases[i]["partial"]), "retain": sum(1 for i in idx if cases[i]["retain"]),
+        "ref_lens_given": sum(1 for i in idx if cases[i]["ref_lens"] is not None),
+        "N=0": sum(1 for i in idx if len(cases[i]["refs"]) == 0), "R=0": sum(1 for i in idx if cases[i]["R"] == 0),
+        "max_N": max([len(cases[i]["refs"]) for i in idx] + [0]), "max_R": max([cases[i]["R"] for i in idx] + [0])}
+    chk.count("source_tie_cases", len(idx))
+    if bad or bad_fixed:
+        rec = {"what": "the Python source of chunk_token_sequences_by_slices as translated to MiniPy and interpreted in Coq "
+                       "(PV.C10.SrcRun.src_chunk_tokens, torch calls = PV.MiniTorch.OpsC10) does not reproduce the implementation's "
+                       "output: translator / interpreter / ext10 / MiniTorch no longer describe the code",
+               "disagreeing_cases": len(bad), "disagreeing_fixed_calls": bad_fixed,
+               "correspondence": "tie:C10:py2coq+MiniPy.Interp+MiniTorch:chunk_token_sequences_by_slices",
+               "theorems_at_stake": SRC_TIE_THEOREMS}
+        if bad:
+            i = min(bad, key=lambda k: len(json.dumps(cases[k])))
+            rec["case"], rec["impl"] = _clean(cases[i]), impls[i]
+        else:
+            rec["case"] = {"kind": "rejection", "name": bad_fixed[0]}
+        chk.report(rec, no_failing_input=True)
 
 
 def replay(chk, path):
